@@ -160,3 +160,60 @@ Proof.
   intros ND Hsub. rewrite <- (size_list_to_set (C := gset positive) l ND).
   apply subseteq_size. intros x Hx. apply elem_of_list_to_set in Hx. by apply Hsub.
 Qed.
+
+(** ** the same on an arbitrary heap (not in normal form) *)
+Definition set_dat h D : heap := upd_maps h (h_lnk h) D.
+
+Lemma run_get_next_plain h i e : i ∈ h_live h -> h_lnk h !! i = Some e -> get_next (Some i) h = Ret (e.1, h).
+Proof. intros H1 H2. pose proof (run_get_next h _ (h_dat h) i _ H1 H2) as H. by rewrite upd_maps_id in H. Qed.
+Lemma run_get_prev_plain h i e : i ∈ h_live h -> h_lnk h !! i = Some e -> get_prev (Some i) h = Ret (e.2, h).
+Proof. intros H1 H2. pose proof (run_get_prev h _ (h_dat h) i _ H1 H2) as H. by rewrite upd_maps_id in H. Qed.
+Lemma run_get_child_plain h i nd : i ∈ h_live h -> h_dat h !! i = Some nd -> get_child (Some i) h = Ret (nd_child nd, h).
+Proof. intros H1 H2. pose proof (run_get_child h (h_lnk h) _ i _ H1 H2) as H. by rewrite upd_maps_id in H. Qed.
+Lemma run_get_type_plain h i nd : i ∈ h_live h -> h_dat h !! i = Some nd -> get_type (Some i) h = Ret (nd_type nd, h).
+Proof. intros H1 H2. pose proof (run_get_type h (h_lnk h) _ i _ H1 H2) as H. by rewrite upd_maps_id in H. Qed.
+Lemma run_get_vstr_plain h i nd : i ∈ h_live h -> h_dat h !! i = Some nd -> get_vstr (Some i) h = Ret (nd_vstr nd, h).
+Proof. intros H1 H2. pose proof (run_get_vstr h (h_lnk h) _ i _ H1 H2) as H. by rewrite upd_maps_id in H. Qed.
+Lemma run_get_key_plain h i nd : i ∈ h_live h -> h_dat h !! i = Some nd -> get_key (Some i) h = Ret (nd_key nd, h).
+Proof. intros H1 H2. pose proof (run_get_key h (h_lnk h) _ i _ H1 H2) as H. by rewrite upd_maps_id in H. Qed.
+
+Definition nd_set_vstr (nd : ndata) (v : ptr) : ndata :=
+  mkND (nd_type nd) v (nd_vint nd) (nd_vdbl nd) (nd_key nd) (nd_child nd).
+Definition nd_set_key (nd : ndata) (v : ptr) : ndata :=
+  mkND (nd_type nd) (nd_vstr nd) (nd_vint nd) (nd_vdbl nd) v (nd_child nd).
+Definition nd_set_type (nd : ndata) (t : Z) : ndata :=
+  mkND t (nd_vstr nd) (nd_vint nd) (nd_vdbl nd) (nd_key nd) (nd_child nd).
+
+Lemma run_set_vstr_plain h i nd v : i ∈ h_live h -> h_dat h !! i = Some nd ->
+  set_vstr (Some i) v h = Ret (tt, set_dat h (<[i := nd_set_vstr nd v]> (h_dat h))).
+Proof.
+  intros H1 H2. rewrite <- (upd_maps_id h) at 1. unfold set_vstr.
+  rewrite (bindM_Ret _ _ _ _ _ (run_ld_dat _ _ _ _ _ H1 H2)). by rewrite run_st_dat by eauto.
+Qed.
+Lemma run_set_key_plain h i nd v : i ∈ h_live h -> h_dat h !! i = Some nd ->
+  set_key (Some i) v h = Ret (tt, set_dat h (<[i := nd_set_key nd v]> (h_dat h))).
+Proof.
+  intros H1 H2. rewrite <- (upd_maps_id h) at 1. unfold set_key.
+  rewrite (bindM_Ret _ _ _ _ _ (run_ld_dat _ _ _ _ _ H1 H2)). by rewrite run_st_dat by eauto.
+Qed.
+Lemma run_set_type_plain h i nd v : i ∈ h_live h -> h_dat h !! i = Some nd ->
+  set_type (Some i) v h = Ret (tt, set_dat h (<[i := nd_set_type nd v]> (h_dat h))).
+Proof.
+  intros H1 H2. rewrite <- (upd_maps_id h) at 1. unfold set_type.
+  rewrite (bindM_Ret _ _ _ _ _ (run_ld_dat _ _ _ _ _ H1 H2)). by rewrite run_st_dat by eauto.
+Qed.
+
+(** ** releasing a block *)
+Definition free1 (b : positive) (h : heap) : heap :=
+  mkHeap (delete b (h_lnk h)) (delete b (h_dat h)) (delete b (h_str h)) (h_own h)
+         (h_live h ∖ {[b]}) (h_next h) (h_req h) (h_hooks h) (EvFree b (via_free h) :: h_trace h).
+Definition free_all (bs : list positive) (h : heap) : heap := fold_left (fun h b => free1 b h) bs h.
+
+Lemma run_free_block h b : b ∈ h_live h -> h_own h !! b = Some Lib ->
+  free_block (Some b) h = Ret (tt, free1 b h).
+Proof. intros H1 H2. unfold free_block. rewrite H2. by rewrite decide_True. Qed.
+
+Lemma free_all_app bs1 bs2 h : free_all (bs1 ++ bs2) h = free_all bs2 (free_all bs1 h).
+Proof. apply fold_left_app. Qed.
+Lemma free_all_cons b bs h : free_all (b :: bs) h = free_all bs (free1 b h).
+Proof. reflexivity. Qed.
